@@ -89,6 +89,14 @@ use log::trace;
 use parking_lot::Mutex;
 
 mod distributor_channels;
+/// Exchange channel primitives, exposed to the deterministic simulation harness.
+#[cfg(datafusion_verif)]
+pub mod verif_channels {
+    pub use super::distributor_channels::{
+        DistributionReceiver, DistributionSender, RecvFuture, SendError, SendFuture,
+        channels, partition_aware_channels,
+    };
+}
 use crate::repartition::distributor_channels::SendError;
 use distributor_channels::{
     DistributionReceiver, DistributionSender, channels, partition_aware_channels,
